@@ -65,6 +65,28 @@ class Ref:
         return "Ref(%s,%s)" % (self.key, self.block)
 
 
+class Coll:
+    """A growable collection abstracted by the set of element values pushed into it."""
+    __slots__ = ("elems",)
+
+    def __init__(self, elems=()):
+        self.elems = tuple(elems)
+
+    def add(self, v):
+        if any(type(v) is type(x) and v == x for x in self.elems):
+            return self
+        return Coll(self.elems + (v,))
+
+    def __eq__(self, o):
+        return isinstance(o, Coll) and self.elems == o.elems
+
+    def __hash__(self):
+        return hash(len(self.elems))
+
+    def __repr__(self):
+        return "Coll%r" % (self.elems,)
+
+
 VEC_TYPES = ("std::vec::Vec<f64>", "&[f64]", "&mut [f64]", "&std::vec::Vec<f64>", "&mut std::vec::Vec<f64>",
              "[f64]", "methods::Tolerance", "&methods::Tolerance", "&mut methods::Tolerance")
 
@@ -91,6 +113,8 @@ class SymExec:
         self.cond_depth = 0   # number of enclosing joined (unresolved) conditionals
         self.const_cache = {}
         self.notes = []
+        self.key_ty = {}
+        self.lazy = {}     # key -> value it got when first read without ever being assigned
 
     # ------------------------------------------------------------------ utilities
     def log(self, kind, **kw):
@@ -150,12 +174,18 @@ class SymExec:
         return ks
 
     # ------------------------------------------------------------------ state helpers
-    def get(self, key, name=None):
+    def get(self, key, name=None, ty=None):
         if key in self.st:
             return self.st[key]
-        # lazily created atom for never-assigned keys (fields of params etc.)
-        v = Poly.atom(name or self.names.get(key, key))
+        # lazily created value for never-assigned keys (fields of params etc.)
+        nm = name or self.names.get(key, key)
+        ty = ty or self.key_ty.get(key)
+        if ty is not None and is_vec_ty(ty):
+            v = Buf(nm, length=Poly.atom("len(%s)" % nm))
+        else:
+            v = Poly.atom(nm)
         self.st[key] = v
+        self.lazy[key] = v
         return v
 
     def set(self, key, v):
@@ -193,6 +223,11 @@ class SymExec:
             return fresh("phi~" + tag)
         if a == b:
             return a
+        if isinstance(a, Coll):
+            c = a
+            for x in b.elems:
+                c = c.add(x)
+            return c
         return fresh("phi~" + tag, [a, b])
 
     def join_states(self, states):
@@ -206,7 +241,7 @@ class SymExec:
         for s in states:
             keys |= set(s)
         for k in keys:
-            vals = [s.get(k) for s in states]
+            vals = [s.get(k, self.lazy.get(k)) for s in states]
             v = vals[0]
             for w in vals[1:]:
                 v = self.join_val(v, w, self.names.get(k, k))
@@ -232,6 +267,8 @@ class SymExec:
             if base[0] == "key":
                 key = base[1] + "." + e["name"]
                 self.names.setdefault(key, self.names.get(base[1], base[1]) + "." + e["name"])
+                if e.get("ty"):
+                    self.key_ty.setdefault(key, e["ty"])
                 return ("key", key)
             return ("unknown", base[1] if len(base) > 1 else None)
         if k == "Unary" and e["op"] == "Deref":
@@ -411,9 +448,16 @@ class SymExec:
         if isinstance(v, Poly):
             return v
         if isinstance(v, Buf):
+            if not v.blocks or list(v.blocks) == [0]:
+                return opaque("vec", [v.get(0)])
             return Poly.atom("buf:" + v.name)
         if isinstance(v, Ref):
-            return Poly.atom("ref:%s" % v.key)
+            tgt = self.st.get(v.key) if self.st is not None else None
+            if isinstance(tgt, Buf):
+                return opaque("vec", [tgt.get(v.block if v.block is not None else 0)])
+            return Poly.atom("ref:%s" % self.names.get(v.key, v.key))
+        if isinstance(v, Coll):
+            return opaque("coll", [self._p(x) for x in v.elems])
         return Poly.atom(str(v))
 
     def binop(self, op, l, r, e=None):
@@ -553,6 +597,24 @@ class SymExec:
                 a = v.single_atom()
                 if a and a in DEFS and DEFS[a][0] in ("tuple",):
                     d = DEFS[a][1]
+                elif a and a in DEFS and DEFS[a][0] == "phi":
+                    leaves = phi_leaves(v)
+                    tl = []
+                    for lf in leaves:
+                        la = lf.single_atom()
+                        if la and la in DEFS and DEFS[la][0] == "tuple" and len(DEFS[la][1]) == len(pat["pats"]):
+                            tl.append(DEFS[la][1])
+                        else:
+                            tl = None
+                            break
+                    if tl:
+                        d = []
+                        for j in range(len(pat["pats"])):
+                            comps = [t[j] for t in tl]
+                            if all(c == comps[0] for c in comps):
+                                d.append(comps[0])
+                            else:
+                                d.append(fresh("phi~comp%d" % j, comps))
             for j, p in enumerate(pat["pats"]):
                 if d is not None and len(d) == len(pat["pats"]):
                     self.bind_pat(p, d[j])
@@ -600,10 +662,21 @@ class SymExec:
         self.cond_depth -= 1
         self.st = self.join_states([s1, s2])
         if s1 is not None and s2 is not None:
+            created = {}
+            for k, v in self.st.items():
+                a, b = s1.get(k, self.lazy.get(k)), s2.get(k, self.lazy.get(k))
+                if a is None or b is None:
+                    continue
+                if type(a) is type(b) and a == b:
+                    continue
+                created[k] = v
+            if created:
+                self.log("joinphi", node=e, created=created)
             nphi = sum(1 for k in self.st if isinstance(self.st[k], Poly) and isinstance(s1.get(k), Poly) and isinstance(s2.get(k), Poly)
                        and s1.get(k) != s2.get(k))
             if nphi >= 2:
                 self.log("multijoin", node=e, n=nphi)
+        self.log("ifval", node=e, v1=v1 if s1 is not None else None, v2=v2 if s2 is not None else None)
         if s1 is None:
             return v2
         if s2 is None:
@@ -750,17 +823,15 @@ class SymExec:
 
     def havoc_roots(self, roots, why):
         for r in roots:
-            # r may be 'id' or 'id.field'; through a Ref the real key differs
-            v = self.st.get(r.split(".")[0]) if "." in r else self.st.get(r)
+            # r is 'owner.local' or 'owner.local.field...'; through a Ref the real key differs
+            parts = r.split(".")
+            root = ".".join(parts[:2])
+            rest = r[len(root):]
+            v = self.st.get(root)
             if isinstance(v, Ref):
-                tgt = v.key + (r[len(r.split(".")[0]):] if "." in r else "")
-                self.havoc_key(tgt, why)
+                self.havoc_key(v.key + rest, why)
             else:
-                if "." not in r:
-                    # havoc tracked fields as well
-                    self.havoc_key(r, why)
-                else:
-                    self.havoc_key(r, why)
+                self.havoc_key(r, why)
 
     def run_loop_body(self, node, body_eval, loop_id):
         """Single-pass loop interpretation from a generalised head state.
@@ -871,8 +942,23 @@ class SymExec:
         # generic loop (zero or more iterations)
         self.eval_iter_side_effects(e["iter"])
 
+        itv = None
+        try:
+            lvit = self.lvalue(e["iter"])
+            if lvit[0] == "key" and isinstance(self.st.get(lvit[1]), Coll):
+                itv = self.st[lvit[1]]
+        except Exception:
+            itv = None
+
         def body():
-            self.bind_pat(pat, self.fresh("it"))
+            if itv is not None and itv.elems:
+                el = itv.elems[0]
+                for x in itv.elems[1:]:
+                    el = self.join_val(el, x, "elem")
+                self.log("iter_elem", node=e, elems=itv.elems)
+                self.bind_pat(pat, el)
+            else:
+                self.bind_pat(pat, self.fresh("it"))
             self.eval(e["body"])
         latch, breaks = self.run_loop_body(e, body, lid)
         # exit happens at a head visit: the generalised head is covered by join(pre, latch)
@@ -1058,6 +1144,22 @@ class SymExec:
         name = e["name"]
         recv = e["recv"]
         rty = recv.get("ty", "")
+        if name == "push" and len(e["args"]) == 1:
+            lv = self.lvalue(recv)
+            v = self.eval(e["args"][0])
+            if isinstance(v, Buf):
+                v = self._p(v)
+            self.log("push", lv=lv, value=v, node=e, recv=recv)
+            if lv[0] == "key":
+                cur = self.st.get(lv[1])
+                if isinstance(cur, Coll):
+                    self.st[lv[1]] = cur.add(v)
+                elif cur is None or (isinstance(cur, Poly) and cur.single_atom() is not None):
+                    self.st[lv[1]] = Coll().add(v) if cur is None else cur
+            return Poly.atom("unit")
+        if name in ("sort_by", "sort", "sort_unstable_by", "reverse", "sort_by_key") and isinstance(self.st.get((self.lvalue(recv) + (None,))[1] or ""), Coll):
+            self.log("sort", node=e)
+            return Poly.atom("unit")
         if name == "len" and len(e["args"]) == 0:
             v = self.eval(recv)
             if isinstance(v, Ref) and v.block is None:
@@ -1155,10 +1257,23 @@ class SymExec:
             n = self.eval(args[1])
             if isinstance(v, Poly):
                 return Buf(fresh("vec").single_atom(), {}, n if isinstance(n, Poly) else None, None, base=v)
+        if d.endswith("Vec::<T>::new") and not args:
+            return Coll()
         if d in ("std::option::Option::Some",) and len(args) == 1:
             v = self.eval(args[0])
             return opaque("Some", [self._p(v)])
         return NotImplemented
+
+
+def phi_leaves(v, depth=0):
+    """Leaves of a (nested) phi atom."""
+    a = v.single_atom() if isinstance(v, Poly) else None
+    if a and a in DEFS and DEFS[a][0] == "phi" and depth < 12:
+        out = []
+        for x in DEFS[a][1]:
+            out.extend(phi_leaves(x, depth + 1))
+        return out
+    return [v]
 
 
 def pat_name(p):
